@@ -185,7 +185,16 @@ def rule_signer_arm(ctx: Ctx, rep: Report) -> None:
     rep.floor("C02.signer_arm", 2)
 
 
+def rule_dispatch_hf(ctx: Ctx, rep: Report) -> None:
+    """C02.dispatch_hf: every dispatch in the module asks the bindings predicate
+    with the hash function the caller named -- RFC 6979 nonce inside libsecp256k1 is HMAC-SHA256: a signature asked under another hash function is the Python arm's, or it is not the RFC 6979 signature of (key, message, hf)."""
+    from rules.C04 import predicate_hf
+    predicate_hf(ctx, rep, "C02.dispatch_hf", D)
+    rep.floor("C02.dispatch_hf", 4)
+
+
 RULES = [
+    ("C02.dispatch_hf", rule_dispatch_hf),
     ("C02.signer_arm", rule_signer_arm),
     ("C02.signer_config", rule_signer_config),
     ("C02.sig_range", rule_sig_range),
@@ -199,6 +208,8 @@ RULES = [
 ]
 
 CONTROLS = [
+    {"rule": "C02.dispatch_hf", "name": "sign_ asks the bindings without the hash function", "module": D,
+     "edit": lambda ctx: M.sub_expr(ctx, f"{D}.sign_", lambda n: isinstance(n, ast.Call) and call_name(n) == "_libsecp256k1_serves" and len(n.args) == 2, "_libsecp256k1_serves(ec, None)")},
     {"rule": "C02.signer_config", "name": "Signer.sign reduces the message with the default hash", "module": D,
      "edit": lambda ctx: M.sub_expr(ctx, f"{D}.Signer.sign", M.is_text("reduce_to_hlen(msg, self._hf)"), "reduce_to_hlen(msg)")},
     {"rule": "C02.signer_arm", "name": "Signer.sign_ asks the predicate again", "module": D,
